@@ -1,0 +1,51 @@
+//go:build verif
+
+package ansi
+
+import (
+	"reflect"
+	"runtime"
+	"strings"
+)
+
+// Yield points for property C08 (forced schedules). verifSched(p, point) stands in front of each
+// statement of Parser.run (points 10-14 in the loop, 20-25 after it, 29 when run returns) and of
+// the Escape-timer callback (30-34, 39 when it has returned). VerifSchedHook, when set, is called
+// at every point: a verification harness parks the calling goroutine there and releases it one
+// statement at a time, so that a chosen interleaving of the callback with the run loop is replayed
+// deterministically. Without a hook nothing happens (and nothing is recovered); without the build
+// tag verifSched is an empty function.
+//
+// Point 39 is a deferred call: when a hook is installed it also reports a panic of the callback
+// (a send on the closed channel) to the hook instead of taking the process down.
+var VerifSchedHook func(p *Parser, point int, panicked any)
+
+func verifSched(p *Parser, point int) {
+	h := VerifSchedHook
+	if h == nil {
+		return
+	}
+	var pv any
+	if point == 39 {
+		pv = recover()
+	}
+	h(p, point, pv)
+}
+
+// VerifSchedSnap is what a harness may look at while every goroutine of the parser is parked.
+type VerifSchedSnap struct {
+	EscGen   uint64
+	State    string // name of the state function, "nil" after the loop
+	IgnoreST bool
+}
+
+// VerifSchedSnapshot reads the fields the mutex guards WITHOUT taking it; only meaningful while
+// the goroutines of p are parked in VerifSchedHook (or blocked in a read of the harness).
+func VerifSchedSnapshot(p *Parser) VerifSchedSnap {
+	s := VerifSchedSnap{EscGen: p.escGen, IgnoreST: p.ignoreST, State: "nil"}
+	if p.state != nil {
+		n := runtime.FuncForPC(reflect.ValueOf(p.state).Pointer()).Name()
+		s.State = n[strings.LastIndexByte(n, '.')+1:]
+	}
+	return s
+}
